@@ -69,6 +69,10 @@ def jobs(ctx):
     crowd = {"RandomInputHandler": {"number_of_root_nodes": 12}, "CuboidPeriodicCells": {"cells_per_side": "5, 5, 5"},
              "CoulombNearby": {"number_event_handlers": 14}, "CoulombSurplus": {"number_event_handlers": 14}}
     sel.append((base + "coulomb_atoms/cell_veto.ini", crowd))
+    # the configuration that ships with a dumping tagger, with ITS OWN create / trash lists (the other jobs get a
+    # dumping tagger added by the driver): the run with dumps against the same configuration without that tagger
+    sel.append((base + "coulomb_atoms/power_bounded_dump.ini",
+                {"RandomInputHandler": {"number_of_root_nodes": 4}, "Coulomb": {"number_event_handlers": 3}}))
     # eight atoms with the all-pairs factor set (state that taggers carry across a dump, e.g. cached factor sets,
     # must survive pickling with its iteration order) and a lattice-sum potential with NON-default Ewald parameters
     # (a restored potential has to be rebuilt with the configured ones)
